@@ -52,14 +52,29 @@ func Wrap(t tabular.Table, style string) RenderTable {
 	case "texttable":
 		tt := texttable.Wrap(t)
 		if len(sections) > 1 {
-			tt.SetDecorationNamed(sections[1])
+			tt.SetDecorationNamed(decorationName(sections[1:]))
 		}
 		return tt
 	default:
 		tt := texttable.Wrap(t)
-		tt.SetDecorationNamed(sections[0])
+		tt.SetDecorationNamed(decorationName(sections))
 		return tt
 	}
+}
+
+// decorationName picks the decoration named by the leading sections of a
+// style.  That is normally just the first section, but applications may
+// register decoration names which themselves contain dots, and ListStyles
+// advertises those, so the longest leading run of sections which is a
+// registered name wins.
+func decorationName(sections []string) string {
+	for n := len(sections); n > 1; n-- {
+		candidate := strings.Join(sections[:n], ".")
+		if decoration.Named(candidate) != decoration.EmptyDecoration {
+			return candidate
+		}
+	}
+	return sections[0]
 }
 
 // New creates a new tabular.Table and Wrap()s it.
